@@ -154,6 +154,20 @@ pub fn run(ctx: &Ctx) -> CheckResult {
             spaces.push(Space { cfg: Cfg::p3(k, tri[0], tri[1], tri[2]), alphabet: rough.clone(), depth: dr - 1, label: "S_rough" });
         }
     }
+    // tiny price unit: the slack tau(t)*M shrinks with M, an ulp of a percentage does not
+    let tiny = with_reset(s_ops(&S_TINY));
+    for tri in [[1usize, 2, 3], [3, 2, 1], [2, 5, 2], [12, 26, 9]] {
+        for k in [Kind::Macd, Kind::Ppo] {
+            spaces.push(Space { cfg: Cfg::p3(k, tri[0], tri[1], tri[2]), alphabet: tiny.clone(), depth: d, label: "S_tiny+reset" });
+        }
+    }
+    for n in 1..=3usize {
+        spaces.push(Space { cfg: Cfg::pm(Kind::Bb, n, 2.0), alphabet: tiny.clone(), depth: d - 1, label: "S_tiny+reset" });
+        spaces.push(Space { cfg: Cfg::pm(Kind::Kc, n, 2.0), alphabet: tiny.clone(), depth: d - 1, label: "S_tiny+reset" });
+        for k in [Kind::Sma, Kind::Wma, Kind::Ema, Kind::Sd, Kind::Mad] {
+            spaces.push(Space { cfg: Cfg::p1(k, n), alphabet: tiny.clone(), depth: d - 1, label: "S_tiny+reset" });
+        }
+    }
     let mut jobs: Vec<(usize, usize)> = vec![];
     for (i, s) in spaces.iter().enumerate() {
         for a in 0..s.alphabet.len() {
@@ -235,6 +249,6 @@ pub fn run(ctx: &Ctx) -> CheckResult {
         res.absorb(merge_jobs(outs));
     }
     res.rule = "case = (configuration, history); invariants evaluated on the real output in every state: SD/MAD >= 0 and not NaN, TR/ATR >= 0, Minimum <= Maximum (paired run), lower <= average <= upper (BB, KC; multiplier >= 0), CE inside the reference window extremes, histogram = line - signal (MACD, PPO), SMA/WMA inside the window hull, EMA inside the history hull (last groups up to tau(t)*M); non-trivial = history longer than the window".into();
-    res.bounds = format!("seq(S_int+reset,{d}) and seq(S_rough,{dr}) scalar, seq(B_grid+reset,{db}) bars (ChandelierExit / KeltnerChannel also on the grid shifted to negative prices), periods 1..5, multipliers {{0,0.5,2,1e6}}; all 5^3 orderings of {{extremes, flat, spikes, osc, tick}} segments at scales 1e-3, 1, 1e9");
+    res.bounds = format!("seq(S_int+reset,{d}), seq(S_rough,{dr}) and seq(S_tiny+reset) scalar, seq(B_grid+reset,{db}) bars (ChandelierExit / KeltnerChannel also on the grid shifted to negative prices), periods 1..5, multipliers {{0,0.5,2,1e6}}; all 5^3 orderings of {{extremes, flat, spikes, osc, tick}} segments at scales 1e-3, 1, 1e9");
     res
 }
